@@ -62,6 +62,12 @@ impl J {
             _ => &[],
         }
     }
+    pub fn as_arr(&self) -> &[J] {
+        match self {
+            J::Arr(a) => a.as_slice(),
+            _ => &[],
+        }
+    }
     pub fn as_str(&self) -> Option<&str> {
         match self {
             J::Str(s) => Some(s),
